@@ -11,6 +11,9 @@
 -/
 import GM.Proof.E2EMain
 import GM.Proof.E2EValue
+import GM.Proof.E2EUrlTok
+import GM.Proof.E2EInlineDone
+import GM.Proof.E2EStoreDone
 
 namespace GM.Props.ConvertE2E
 open GM GM.Text GM.Convert GM.Spec GM.E2E
@@ -36,7 +39,7 @@ theorem block_store_ok_decidable (guard : Bool) (src : Bytes) (st : GM.Blocks.St
 example : headOKB { r := Reader.new [], nodes := [{ kind := .heading, level := 7 }], pc := {} } = false := by decide
 
 /-- the same for the block driver with ANY list of paragraph transformers that keep the heading levels -/
-theorem block_store_heading_levels_any_transformers (pts : List GM.Blocks.PT) (hp : PTsKeep pts) (src : Bytes)
+theorem block_store_heading_levels_any_transformers (pts : List GM.Blocks.PT) (hp : PTsKeep HeadOK pts) (src : Bytes)
     (st : GM.Blocks.St) (h : GM.Blocks.runT pts src = .ok st) :
     ∀ n ∈ st.nodes, n.kind = .heading → 1 ≤ n.level ∧ n.level ≤ 6 :=
   runT_headOK hp src st h
@@ -114,6 +117,68 @@ theorem inline_children_resolve_partial (hI : InlineSegsUnpadded) (env : GM.Inl.
 theorem block_kind_resolves (src : Bytes) (n : GM.Blocks.Node) (h : RawSegsP src n) : ∃ k, blockKind src n = .ok k :=
   blockKind_total h
 
+/-- `inline_segments_unpadded` (round 2: was the hypothesis `InlineSegsUnpadded`). For EVERY source, every `WF0` line
+    list, reference map and Unicode class assignment: every segment recorded in the tree `parseBlock` answers — Text,
+    code-span text, autolink value, raw-HTML segments — has padding 0. Proved by a logical relation through the block
+    reader and the whole inline model (GM.Proof.E2EPad*): segment arithmetic never creates padding. -/
+theorem inline_segments_unpadded : InlineSegsUnpadded := inlineSegsUnpadded
+
+/-- `inline_children_resolve`: behind `convertCore`'s `WF0` check the inline children of EVERY block resolve to bytes —
+    no `Segment.Value` panic of a node renderer comes from an inline node. Unconditional. -/
+theorem inline_children_resolve (env : GM.Inl.Env) (src : Bytes) (n : GM.Blocks.Node) (kids : List GM.Inl.Node)
+    (h : inlinePhase true env src n = .ok kids) : ∃ ts, inlineTrees src kids = .ok ts :=
+  inlinePhase_values_total h
+
+/-- `convert_no_value_panic_of_raw_segments`: `Err.value p` is unreachable given ONLY hypothesis (b) — in the store the
+    block phase returns, the lines of raw blocks, fenced info segments and HTML closure lines are in range -/
+theorem convert_no_value_panic_of_raw_segments (uc : List (Nat × (Bool × Bool))) (o : ROpts) (src : Bytes)
+    (hB : ∀ st, blockPhase true src = .ok st → RawSegsInRange src st) (p : Panic) :
+    convertCore uc o src ≠ .error (.value p) :=
+  convertCore_noValue_of_raw uc o src hB p
+
+/-- `convert_renderer_side_total_partial`: given (b), `convertCore` can only fail in the parse phases — with a
+    `blocks …`, `linesNotWF0` or `inlines …` outcome; the renderer side (`value`, `render`) is total. -/
+theorem convert_renderer_side_total_partial (uc : List (Nat × (Bool × Bool))) (o : ROpts) (src : Bytes)
+    (hB : ∀ st, blockPhase true src = .ok st → RawSegsInRange src st) (e : Err) (h : convertCore uc o src = .error e) :
+    (∃ p, e = .blocks p) ∨ e = .linesNotWF0 ∨ (∃ p, e = .inlines p) := by
+  cases e with
+  | blocks p => exact .inl ⟨p, rfl⟩
+  | linesNotWF0 => exact .inr (.inl rfl)
+  | inlines p => exact .inr (.inr ⟨p, rfl⟩)
+  | value p => exact absurd h (convertCore_noValue_of_raw uc o src hB p)
+  | render k => exact absurd h (convertWith_not_render o true uc src k)
+
+/-- `block_store_info_closure_in_range` (round 2: was part of hypothesis (b)). For EVERY source: in the store the
+    block phase returns (guarded or not), the info segment of every FencedCodeBlock and the closure line of every
+    HTMLBlock (`HasClosure()`) satisfy `0 ≤ start ≤ stop ≤ len(source)`, `padding ≥ 0`. A frame invariant that looks
+    at the reader: whenever the source reader hands out a line it is `Value` of the position it hands out, and both
+    segments are computed from a position handed out TOGETHER WITH a line. -/
+theorem block_store_info_closure_in_range (guard : Bool) (src : Bytes) (st : GM.Blocks.St)
+    (h : blockPhase guard src = .ok st) : ∀ n ∈ st.nodes, XP src n :=
+  blockPhase_xsegs guard src st h
+
+/-- `convert_no_value_panic_of_raw_lines`: `Err.value p` is unreachable given ONLY that the LINES of the raw blocks
+    (CodeBlock / FencedCodeBlock / HTMLBlock) of the store are in range — a consequence of `GM.Blocks.NodesOK src st`,
+    the conclusion of the no-panic theorems of the block phase. -/
+theorem convert_no_value_panic_of_raw_lines (uc : List (Nat × (Bool × Bool))) (o : ROpts) (src : Bytes)
+    (hB : ∀ st, blockPhase true src = .ok st →
+      ∀ n ∈ st.nodes, isRawKind n.kind = true → ∀ t ∈ n.lines, segInRange src t) (p : Panic) :
+    convertCore uc o src ≠ .error (.value p) :=
+  convertCore_noValue_of_lines uc o src hB p
+
+/-- `convert_renderer_side_total_of_lines`: given that, `convertCore` only fails in the parse phases -/
+theorem convert_renderer_side_total_of_lines (uc : List (Nat × (Bool × Bool))) (o : ROpts) (src : Bytes)
+    (hB : ∀ st, blockPhase true src = .ok st →
+      ∀ n ∈ st.nodes, isRawKind n.kind = true → ∀ t ∈ n.lines, segInRange src t)
+    (e : Err) (h : convertCore uc o src = .error e) :
+    (∃ p, e = .blocks p) ∨ e = .linesNotWF0 ∨ (∃ p, e = .inlines p) := by
+  cases e with
+  | blocks p => exact .inl ⟨p, rfl⟩
+  | linesNotWF0 => exact .inr (.inl rfl)
+  | inlines p => exact .inr (.inr ⟨p, rfl⟩)
+  | value p => exact absurd h (convertCore_noValue_of_lines uc o src hB p)
+  | render k => exact absurd h (convertWith_not_render o true uc src k)
+
 /-- `raw_segments_from_lines_in_range`: hypothesis (b) splits into the range clause of C05(c) for the store (the shape of
     `GM.Props.Blocks.lines_in_range`, there proved for the driver WITHOUT transformers) plus the same for the two other
     segments a node renderer resolves — so a `lines_in_range` theorem for `blockPhase` discharges the first part. -/
@@ -173,6 +238,27 @@ theorem convert_safe_urls_harmless (uc : List (Nat × (Bool × Bool))) (o : ROpt
           (∀ b ∈ m ++ urlOut false d, b ≠ 34) ∧
           hrefDangerous lookupEntity (m ++ urlOut false d) = false :=
   safe_urls_harmless uc o src html h hsafe
+
+/-- `convert_safe_urls_harmless_tokens` (C04 at TOKEN level). For EVERY source, Unicode class assignment, XHTML /
+    HardWraps setting: the HTML `convertCore` answers in safe mode is accepted by the strict tokenizer and `Spec.urlsOK
+    lookupEntity` holds of its tokens — every `href` / `src` value of every start tag, read the way a browser reads it
+    (`Spec.hrefDangerous`: decode character references, trim, strip tab / CR / LF, read the scheme), is harmless. This is
+    the predicate the run-time oracle `tok urls` evaluates, as a theorem about every document. -/
+theorem convert_safe_urls_harmless_tokens (uc : List (Nat × (Bool × Bool))) (o : ROpts) (src : Bytes) (html : Bytes)
+    (h : convertCore uc o src = .ok html) (hsafe : o.unsafe_ = false) :
+    ∃ ts, tokenize html = some ts ∧ urlsOK lookupEntity ts = true :=
+  safe_urls_harmless_tokens uc o src html h hsafe
+
+/-- the renderer half of it for EVERY tree with `Spec.Inv`, every option / extension set (footnote `href="#…"` included):
+    C04 at token level for the renderer model, not only for parser output -/
+theorem render_safe_urls_harmless_tokens (o : Opts) (e : Exts) (t : GM.Node) (hsafe : o.unsafe_ = false)
+    (hinv : Spec.Inv (mkRCfg o e) t = true) :
+    ∃ ts, tokenize (render (mkRCfg o e) t) = some ts ∧ urlsOK lookupEntity ts = true :=
+  render_urlsOK o e t hsafe hinv
+
+/-- the token predicate is not constantly true (test on a literal): the pre-fix spelling is rejected -/
+example : ((tokenize (strBytes "<a href=\"javascript:x\">y</a>")).map (urlsOK lookupEntity)) = some false := by
+  decide +kernel
 
 /-- the piece-list fact behind it holds for EVERY tree, extension set and alignment method (not only parser output):
     C04 quantifies over all byte strings a node can store -/
@@ -244,7 +330,7 @@ example : (convertCore [] {} (strBytes "[x](javascript:y) <http://a> ![i](/s)\n"
   decide +kernel
 
 /-- `PTsKeep` is satisfiable: the default transformer list, and the empty list -/
-example : PTsKeep (paragraphTransformers true) := paragraphTransformers_keep true
-example : PTsKeep [] := fun _ h => by cases h
+example : PTsKeep HeadOK (paragraphTransformers true) := paragraphTransformers_keep true
+example : PTsKeep HeadOK [] := fun _ h => by cases h
 
 end GM.Props.ConvertE2E
